@@ -90,6 +90,12 @@ CHECKS["C06"] = dict(
   text="Generated link configurations (MIU 128..2175 each side, LTO, aggregation, LR, bit rate, serving side), socket MIU/RW and message sizes around fragment boundaries are run end to end: SnepServer/HandoverServer started in on-connect, client thread on the peer. The server application must see exactly one request, octet for octet (raw request and re-encoded records), the client must get the server's answer; oversize requests/responses must be refused by the protocol's error code and never delivered in part.",
   note=TRUST + "RF medium, driver and scheduler are simulated (vlib/simdev.py, vsched.py); no frame loss in this check (C04 covers it); secure data transfer unavailable in the sandbox.")
 
+CHECKS["C09"] = dict(
+  category="exploration",
+  technique="schedule exploration under a deterministic virtual scheduler: property-based generation of blocking-application scenarios x termination causes x schedule choice lists; bounded systematic single-preemption sweep around the termination event; exhaustive schedules of one socket call racing terminate()",
+  text="Two complete stacks with generated sets of blocking application threads (accept, connect, resolve, send on a full window, recv, sendto, recvfrom, poll, SNEP/handover servers); the link is ended by RF disruption at frame n, local terminate at time T or a device IOError at driver call j. Afterwards every thread must have returned or raised nfc.llcp.Error, servers exited, both connect() returned; calls issued after termination must return/raise within bounded virtual time. The race leg enumerates every schedule in {0,1}^9 (quick) / {0,1}^13 (thorough) of 8 blocking calls against terminate().",
+  note=TRUST + "Interleavings at synchronisation-point granularity; 'bounded time' = fixed virtual-time bound. Known finding C09-calls-after-termination-block (no 'terminated' link state) excluded by class.")
+
 PENDING_REASON = "not claimed yet: its generated-input check (DESIGN.md section 3) is still under construction in this session; nothing is asserted about it"
 
 def main():
